@@ -1,7 +1,7 @@
 """C12 — taproot commitments (structural clauses)."""
 import ast
 
-from sa import rl
+from sa import algebra, rl
 from sa.cfg import cfg_of
 from sa.dataflow import call_name, dotted, expand, origins
 from sa.fold import Folder, Unknown
@@ -194,10 +194,18 @@ def c12_4(ctx):
         for n in cfg.returns():
             ex = expand(fn, n.id, n.ast.value, stop=("tweak",))
             txt = ast.unparse(ex)
-            if txt in ("self.even_point() + big_endian_to_int(tweak)",):
+            ts = sorted(algebra.terms(ex))
+            if ts == sorted([(1, "self.even_point()"), (1, "big_endian_to_int(tweak)")]):
                 out.append(ctx.ok(spec, "Q = even(P) + int(tweak)·G", n.ast, mod, key="pub-tweak"))
+            elif (1, "self") in ts or (-1, "self") in ts:
+                out.append(ctx.bad(spec, "tweaked key is `%s`: the internal key is used with its own Y parity, BIP341 tweaks lift_x(P) (even Y) — for an odd-Y internal key the "
+                                         "output key commits to the wrong point" % txt, n.ast, mod, key="pub-tweak"))
+            elif not any("tweak" in t for _, t in ts):
+                out.append(ctx.bad(spec, "tweaked key is `%s`: the tweak is not added" % txt, n.ast, mod, key="pub-tweak"))
+            elif any(s < 0 for s, _ in ts):
+                out.append(ctx.bad(spec, "tweaked key is `%s`: BIP341 adds t·G to lift_x(P), a term is subtracted" % txt, n.ast, mod, key="pub-tweak"))
             else:
-                out.append(ctx.bad(spec, "tweaked key is `%s`, BIP341: lift_x(P) (even Y) + t·G" % txt, n.ast, mod, key="pub-tweak"))
+                out.append(ctx.err(spec, "tweaked key `%s` not recognised as even(P) + t·G" % txt, n.ast, mod))
         spec = "%s:S256Point.tweak" % label
         mod, fn = repo.func(spec)
         ctx.note_fn(mod, fn)
@@ -214,11 +222,23 @@ def c12_4(ctx):
         for n in cfg.returns():
             v = n.ast.value
             if isinstance(v, ast.Call) and v.args:
-                ex = ast.unparse(expand(fn, n.id, v.args[0]))
-                if ex == "(self.even_secret() + big_endian_to_int(self.point.tweak(merkle_root))) % N":
+                exa = expand(fn, n.id, v.args[0])
+                ex = ast.unparse(exa)
+                c = algebra.canon(exa)
+                ts = sorted(algebra.terms(exa))
+                want = sorted([(1, "self.even_secret()"), (1, "big_endian_to_int(self.point.tweak(merkle_root))")])
+                if c[0] == "mod" and c[2] == "N" and ts == want:
                     out.append(ctx.ok(spec, "d' = (even_secret + t) mod n with t from the key's own tweak", v, mod, key="priv-tweak"))
+                elif ts == want and c[0] != "mod":
+                    out.append(ctx.bad(spec, "tweaked secret `%s` is not reduced mod n" % ex, v, mod, key="priv-tweak"))
+                elif any(t == "self.secret" for _, t in ts):
+                    out.append(ctx.bad(spec, "tweaked secret is `%s`: the raw secret is used, BIP341 negates it first when the public key has odd Y" % ex, v, mod, key="priv-tweak"))
+                elif not any("tweak" in t for _, t in ts):
+                    out.append(ctx.bad(spec, "tweaked secret is `%s`: the tweak is not added" % ex, v, mod, key="priv-tweak"))
+                elif any(s < 0 for s, _ in ts):
+                    out.append(ctx.bad(spec, "tweaked secret is `%s`: BIP341 adds the tweak to the (even-Y) secret, a term is subtracted" % ex, v, mod, key="priv-tweak"))
                 else:
-                    out.append(ctx.bad(spec, "tweaked secret is `%s`, BIP341: (d with even-Y public key + t) mod n" % ex, v, mod, key="priv-tweak"))
+                    out.append(ctx.err(spec, "tweaked secret `%s` not recognised as (even_secret + t) mod n" % ex, v, mod))
         spec = "%s:PrivateKey.even_secret" % label
         mod, fn = repo.func(spec)
         ctx.note_fn(mod, fn)
@@ -230,10 +250,16 @@ def c12_4(ctx):
                     a = cfg.nodes[s].ast
                     if isinstance(a, ast.Return):
                         arms[l] = ast.unparse(a.value)
-        if arms == {True: "N - self.secret", False: "self.secret"}:
+        carms = {l: sorted(algebra.terms(ast.parse(v, mode="eval").body)) for l, v in arms.items()}
+        neg, same = sorted([(1, "N"), (-1, "self.secret")]), [(1, "self.secret")]
+        if carms == {True: neg, False: same}:
             out.append(ctx.ok(spec, "odd-Y key → n − d, even-Y key → d", fn, mod, key="even-secret"))
+        elif carms == {True: same, False: neg}:
+            out.append(ctx.bad(spec, "even_secret negates the secret for even-Y keys and keeps it for odd-Y keys (arms swapped)", fn, mod, key="even-secret"))
+        elif set(carms) == {True, False} and carms[True] == carms[False]:
+            out.append(ctx.bad(spec, "even_secret returns `%s` whatever the parity of the public key" % arms[True], fn, mod, key="even-secret"))
         else:
-            out.append(ctx.bad(spec, "even_secret arms %s, expected {odd: N - secret, even: secret}" % arms, fn, mod, key="even-secret"))
+            out.append(ctx.err(spec, "even_secret arms %s not recognised as {odd: N - secret, even: secret}" % arms, fn, mod))
         spec = "%s:S256Point.even_point" % label
         mod, fn = repo.func(spec)
         ctx.note_fn(mod, fn)
@@ -245,10 +271,16 @@ def c12_4(ctx):
                     a = cfg.nodes[s].ast
                     if isinstance(a, ast.Return):
                         arms[l] = ast.unparse(a.value)
-        if arms == {True: "-1 * self", False: "self"}:
+        carms = {l: sorted(algebra.terms(ast.parse(v, mode="eval").body)) for l, v in arms.items()}
+        neg, same = [(-1, "self")], [(1, "self")]
+        if carms == {True: neg, False: same}:
             out.append(ctx.ok(spec, "odd-Y point → −P, even-Y point → P", fn, mod, key="even-point"))
+        elif carms == {True: same, False: neg}:
+            out.append(ctx.bad(spec, "even_point negates even-Y points and keeps odd-Y points (arms swapped)", fn, mod, key="even-point"))
+        elif set(carms) == {True, False} and carms[True] == carms[False]:
+            out.append(ctx.bad(spec, "even_point returns `%s` whatever the parity" % arms[True], fn, mod, key="even-point"))
         else:
-            out.append(ctx.bad(spec, "even_point arms %s, expected {odd: -1 * self, even: self}" % arms, fn, mod, key="even-point"))
+            out.append(ctx.err(spec, "even_point arms %s not recognised as {odd: -self, even: self}" % arms, fn, mod))
     return out
 
 
